@@ -211,10 +211,10 @@ func (c *c48Conn) RemoteAddr() net.Addr { return c.remote }
 
 type c48Stream struct{ method string }
 
-func (s *c48Stream) Method() string                { return s.method }
-func (s *c48Stream) SetHeader(metadata.MD) error   { return nil }
-func (s *c48Stream) SendHeader(metadata.MD) error  { return nil }
-func (s *c48Stream) SetTrailer(metadata.MD) error  { return nil }
+func (s *c48Stream) Method() string               { return s.method }
+func (s *c48Stream) SetHeader(metadata.MD) error  { return nil }
+func (s *c48Stream) SendHeader(metadata.MD) error { return nil }
+func (s *c48Stream) SetTrailer(metadata.MD) error { return nil }
 func c48TCP(a c48Addr) *net.TCPAddr               { return &net.TCPAddr{IP: net.ParseIP(a.IP), Port: int(a.Port)} }
 func c48AddrString(a c48Addr) string              { return net.JoinHostPort(a.IP, fmt.Sprint(a.Port)) }
 func c48MDString(md map[string][]string) string   { b, _ := json.Marshal(md); return string(b) }
@@ -659,9 +659,16 @@ func c48Level2(leaves []*c48Node) []*c48Node {
 // running one chain against all requests
 // ---------------------------------------------------------------------------
 
+type c48Viol struct {
+	idx, seq  int
+	key, desc string
+	rp        c48Replay
+}
+
 type c48Stats struct {
 	evals, chains, nontrivial int64
 	outcomes                  map[string]int64
+	viols                     []c48Viol // per worker: its first 20 (lowest enumeration index)
 }
 
 func (s *c48Stats) add(o *c48Stats) {
@@ -671,6 +678,7 @@ func (s *c48Stats) add(o *c48Stats) {
 	for k, v := range o.outcomes {
 		s.outcomes[k] += v
 	}
+	s.viols = append(s.viols, o.viols...)
 }
 
 type c48Replay struct {
@@ -679,24 +687,39 @@ type c48Replay struct {
 }
 
 type c48Runner struct {
-	r     *vk.Run
-	reqs  []*c48Req
-	nviol atomic.Int64
-	mu    sync.Mutex
+	r    *vk.Run
+	reqs []*c48Req
+	mu   sync.Mutex
 }
 
 const c48P = "C48"
 
-func (x *c48Runner) violation(layer string, ch c48Chain, q *c48Req, desc string) {
-	if x.nviol.Add(1) > 20 {
+func (x *c48Runner) violation(st *c48Stats, idx int, layer string, ch c48Chain, q *c48Req, desc string) {
+	if len(st.viols) >= 20 {
 		return
 	}
-	x.mu.Lock()
-	defer x.mu.Unlock()
-	x.r.Violation(c48P, fmt.Sprintf("rbac %s :: %s", ch.String(), q.Name),
-		fmt.Sprintf("[%s] chain %s ; request {method=%s md=%s peer=%s local=%s tls=%s uris=%v dns=%v subject=%q}: %s",
+	st.viols = append(st.viols, c48Viol{idx: idx, seq: len(st.viols),
+		key: fmt.Sprintf("rbac %s :: %s", ch.String(), q.Name),
+		desc: fmt.Sprintf("[%s] chain %s ; request {method=%s md=%s peer=%s local=%s tls=%s uris=%v dns=%v subject=%q}: %s",
 			layer, ch.String(), q.Method, c48MDString(q.MD), c48AddrString(q.Peer), c48AddrString(q.Local), q.TLS, q.URIs, q.DNS, q.Subject, desc),
-		c48Replay{Chain: ch, Req: q.Name})
+		rp: c48Replay{Chain: ch, Req: q.Name}})
+}
+
+// report hands the 20 lowest-index violations of a layer to the kit (a
+// deterministic choice: the globally lowest 20 are among every worker's first 20).
+func (x *c48Runner) report(st *c48Stats) {
+	sort.Slice(st.viols, func(a, b int) bool {
+		if st.viols[a].idx != st.viols[b].idx {
+			return st.viols[a].idx < st.viols[b].idx
+		}
+		return st.viols[a].seq < st.viols[b].seq
+	})
+	for i, v := range st.viols {
+		if i >= 20 {
+			break
+		}
+		x.r.Violation(c48P, v.key, v.desc, v.rp)
+	}
 }
 
 func c48Decide(ce *ChainEngine, ctx context.Context) (err error, pan any) {
@@ -709,7 +732,7 @@ func c48Decide(ce *ChainEngine, ctx context.Context) (err error, pan any) {
 }
 
 // check runs chain ch against every request (or only `only`).
-func (x *c48Runner) check(layer string, ch c48Chain, st *c48Stats, only string) {
+func (x *c48Runner) check(layer string, idx int, ch c48Chain, st *c48Stats, only string) {
 	ce, err := NewChainEngine(c48ChainProto(ch), "c48")
 	if err != nil {
 		x.mu.Lock()
@@ -734,13 +757,13 @@ func (x *c48Runner) check(layer string, ch c48Chain, st *c48Stats, only string) 
 		}
 		switch {
 		case pan != nil:
-			x.violation(layer, ch, q, fmt.Sprintf("IsAuthorized panicked: %v (policy semantics: %s)", pan, class))
+			x.violation(st, idx, layer, ch, q, fmt.Sprintf("IsAuthorized panicked: %v (policy semantics: %s)", pan, class))
 		case want && err != nil:
-			x.violation(layer, ch, q, fmt.Sprintf("policy semantics say ALLOWED, IsAuthorized returned %v", err))
+			x.violation(st, idx, layer, ch, q, fmt.Sprintf("policy semantics say ALLOWED, IsAuthorized returned %v", err))
 		case !want && err == nil:
-			x.violation(layer, ch, q, fmt.Sprintf("policy semantics say %s, IsAuthorized allowed the RPC", class))
+			x.violation(st, idx, layer, ch, q, fmt.Sprintf("policy semantics say %s, IsAuthorized allowed the RPC", class))
 		case !want && status.Code(err) != codes.PermissionDenied:
-			x.violation(layer, ch, q, fmt.Sprintf("policy semantics say %s, IsAuthorized returned a non-PermissionDenied error %v", class, err))
+			x.violation(st, idx, layer, ch, q, fmt.Sprintf("policy semantics say %s, IsAuthorized returned a non-PermissionDenied error %v", class, err))
 		}
 	}
 	if sawAllow && sawReject {
@@ -821,7 +844,8 @@ func TestVerif_C48_RBAC(t *testing.T) {
 			return
 		}
 		st := &c48Stats{outcomes: map[string]int64{}}
-		x.check("replay", rp.Chain, st, rp.Req)
+		x.check("replay", 0, rp.Chain, st, rp.Req)
+		x.report(st)
 		r.Eval(P, st.evals)
 		fmt.Printf("replay: chain %s req %s: evaluated %d, violations %d\n", rp.Chain.String(), rp.Req, st.evals, r.NViolations(P))
 		return
@@ -843,6 +867,7 @@ func TestVerif_C48_RBAC(t *testing.T) {
 
 	layer := func(name string, n int, f func(i int, st *c48Stats)) {
 		st := x.par(n, f)
+		x.report(st)
 		r.Eval(P, st.evals)
 		r.NontrivialN(P, st.nontrivial)
 		r.Set(P, name+"_chains", st.chains)
@@ -864,36 +889,36 @@ func TestVerif_C48_RBAC(t *testing.T) {
 
 	// ---- (T) tree layers -------------------------------------------------
 	layer("T2_perm", 2*len(permL2), func(i int, st *c48Stats) {
-		x.check("T2_perm", c48One(i%2 == 1, []*c48Node{permL2[i/2]}, anyL), st, "")
+		x.check("T2_perm", i, c48One(i%2 == 1, []*c48Node{permL2[i/2]}, anyL), st, "")
 	})
 	layer("T2_princ", 2*len(princL2), func(i int, st *c48Stats) {
-		x.check("T2_princ", c48One(i%2 == 1, anyL, []*c48Node{princL2[i/2]}), st, "")
+		x.check("T2_princ", i, c48One(i%2 == 1, anyL, []*c48Node{princL2[i/2]}), st, "")
 	})
 	if th {
 		nPerm := c48NextCount(len(permLeaves), len(permL2), false)
 		nPrinc := c48NextCount(len(princLeaves), len(princL2), false)
 		layer("T3_perm", nPerm, func(i int, st *c48Stats) {
-			x.check("T3_perm", c48One(false, []*c48Node{c48NextAt(permLeaves, permL2, i, false)}, anyL), st, "")
+			x.check("T3_perm", i, c48One(false, []*c48Node{c48NextAt(permLeaves, permL2, i, false)}, anyL), st, "")
 		})
 		layer("T3_princ", nPrinc, func(i int, st *c48Stats) {
-			x.check("T3_princ", c48One(false, anyL, []*c48Node{c48NextAt(princLeaves, princL2, i, false)}), st, "")
+			x.check("T3_princ", i, c48One(false, anyL, []*c48Node{c48NextAt(princLeaves, princL2, i, false)}), st, "")
 		})
 	}
 
 	// ---- (P) policy layers -----------------------------------------------
 	npl, nql := c48ListCount(len(permLeaves), th), c48ListCount(len(princLeaves), th)
 	layer("P_leaves", npl*nql, func(i int, st *c48Stats) {
-		x.check("P_leaves", c48One(false, c48ListAt(permLeaves, i/nql, th), c48ListAt(princLeaves, i%nql, th)), st, "")
+		x.check("P_leaves", i, c48One(false, c48ListAt(permLeaves, i/nql, th), c48ListAt(princLeaves, i%nql, th)), st, "")
 	})
 	if th {
 		princMenu := [][]*c48Node{anyL, {{K: "rip", V: "10.0.0.0/8"}, {K: "authn", M: "exact", V: "spiffe://a/b"}}}
 		permMenu := [][]*c48Node{anyL, {{K: "path", M: "exact", V: "/s/m"}, {K: "dip", V: "::/0"}}}
 		np2, nq2 := c48ListCount(len(permL2), false), c48ListCount(len(princL2), false)
 		layer("P_perm2", np2*len(princMenu), func(i int, st *c48Stats) {
-			x.check("P_perm2", c48One(false, c48ListAt(permL2, i/len(princMenu), false), princMenu[i%len(princMenu)]), st, "")
+			x.check("P_perm2", i, c48One(false, c48ListAt(permL2, i/len(princMenu), false), princMenu[i%len(princMenu)]), st, "")
 		})
 		layer("P_princ2", nq2*len(permMenu), func(i int, st *c48Stats) {
-			x.check("P_princ2", c48One(false, permMenu[i%len(permMenu)], c48ListAt(princL2, i/len(permMenu), false)), st, "")
+			x.check("P_princ2", i, c48One(false, permMenu[i%len(permMenu)], c48ListAt(princL2, i/len(permMenu), false)), st, "")
 		})
 	}
 
@@ -923,7 +948,7 @@ func TestVerif_C48_RBAC(t *testing.T) {
 			j := i - 1 - nEng
 			ch = c48Chain{engAt(j / nEng), engAt(j % nEng)}
 		}
-		x.check("C_chain", ch, st, "")
+		x.check("C_chain", i, ch, st, "")
 	})
 
 	// ---- written-out cases ----------------------------------------------
